@@ -7,6 +7,7 @@ package main
 
 import (
 	"fmt"
+	"net"
 	"net/http"
 	"net/netip"
 	"net/url"
@@ -42,6 +43,13 @@ var c11Labels = []string{"example", "Example", "EXAMPLE", "com", "COM", "org", "
 var c11LabelsU = []string{"\u4f8b\u3048", "\u0645\u062b\u0627\u0644"}
 var c11V6 = []string{"::1", "2001:db8::1", "2001:DB8::1", "fe80::1%eth0", "fe80::1%ETH0", "::ffff:1.2.3.4", "2001:db8:0:0:0:0:0:1", "::"}
 
+// bracketed texts around the edges of netip.ParseAddr's grammar (valid and invalid): direct cases only
+var c11V6Odd = []string{"1:2:3:4:5:6:7:8", "1:2:3:4:5:6:7::", "::2:3:4:5:6:7:8", "1:2:3:4:5:6:7:8:9", "1::2::3", "12345::", "::1.2.3.4",
+	"1:2:3:4:5:6:1.2.3.4", "1:2:3:4:5:6:7:1.2.3.4", "::ffff:1.2.3.256", ":::", "1:", ":1", "g::1", "1:2:3:4:5:6:7::8", "a:b.c.d", "1::",
+	"1:2:3:4:5:6:7", "1:2:3:4::5:6:7:8", "::1:2:3:4:5:6:7:8", "::ffff:1.2.3", "1::1.2.3.4", "1:2:3:4:5::1.2.3.4", "1:2:3:4:5:6::1.2.3.4",
+	"::1.2.3.4.5", "1:2::3:", "FFFF::ABCD", "0:0:0:0:0:0:0:0", "::01.2.3.4", "fe80::1%25eth0", "1:2:3:4:5:6:77777:8", "::%eth0", "1::%e.x.y"}
+var c11OddV6 = false
+
 func genAuthority(r *hk.Rand) authority {
 	var a authority
 	switch k := r.Intn(10); {
@@ -71,6 +79,9 @@ func genAuthority(r *hk.Rand) authority {
 	default:
 		a.Kind = "v6"
 		a.Host = hk.Pick(r, c11V6)
+		if c11OddV6 && r.Chance(35) {
+			a.Host = hk.Pick(r, c11V6Odd)
+		}
 	}
 	switch r.Intn(4) {
 	case 0:
@@ -146,6 +157,7 @@ func runC11(r *hk.Run) {
 	r.Rule = "authority pairs from a grammar (DNS names in mixed case +- trailing dot, IPv4, bracketed IPv6 +- zone; port absent/empty/digits), targets mostly derived from the origin by case/port/label mutation; policy evaluations on exported constructors; end-to-end chains through a real client (status 301/302/303/307/308, absolute and relative Location, GET and POST, hop counts directed at the configured limit); sequences of client operations (C / SetRedirectPolicy / Clone / request) with one observation per request; groups of chains in flight through one client under a harness-controlled order of CheckRedirect evaluations. Non-trivial: the authority has a port, brackets, upper-case letters or >=3 labels (host cases); origin and target differ textually (policy cases); chain has >=2 hops (chains); the sequence has a Clone, a SetRedirectPolicy after it and >=2 requests (client sequences); >=2 chains with >=1 hop each (concurrent groups). Distinct by rendered input."
 	rng := hk.NewRand(r.Seed)
 
+	c11OddV6 = true
 	// (a1) hostname / domain
 	n := r.Scale(1500, 30000)
 	for i := 0; i < n; i++ {
@@ -177,6 +189,44 @@ func runC11(r *hk.Run) {
 		nt := a.Port != nil || a.Kind == "v6" || in != strings.ToLower(in) || strings.Count(a.Host, ".") >= 2
 		r.Add(hk.Case{Coq: fmt.Sprintf("HostCase %s %s %s", hk.CoqStr(in), hk.CoqStr(gotH), hk.CoqStr(gotD)),
 			Desc: map[string]interface{}{"kind": "host", "input": in, "hostname": gotH, "domain": gotD}}, "h|"+in, nt)
+	}
+
+	// (a1') the stdlib model and the malformed stream: strings assembled from authority tokens in any
+	// order (unbalanced / misplaced brackets, several colons, empty pieces).  No property oracle here -
+	// such strings cannot be a parsed URL's Host; they can be AllowedHost/AllowedDomain entries - only
+	// the correspondence: net.SplitHostPort vs split_host_port, getHostname/getDomain vs the model.
+	n = r.Scale(400, 8000)
+	toks := []string{"[", "]", ":", ":", "a", "B.c", "::1", "2001:db8::1", "80", "", ".", "%eth0", "1.2.3.4", "x"}
+	for i := 0; i < n; i++ {
+		var in string
+		if rng.Chance(30) {
+			in = genAuthority(rng).render()
+			switch rng.Intn(4) { // damage a well-formed authority
+			case 0:
+				in = strings.Replace(in, "]", "", 1)
+			case 1:
+				in = strings.Replace(in, "[", "", 1)
+			case 2:
+				in += ":" + hk.Pick(rng, []string{"", "1", "x"})
+			case 3:
+				in = "[" + in
+			}
+		} else {
+			for k, m := 0, rng.Range(0, 6); k < m; k++ {
+				in += hk.Pick(rng, toks)
+			}
+		}
+		h, p, err := net.SplitHostPort(in)
+		obs := "None"
+		if err == nil {
+			obs = "(Some " + hk.CoqPair(hk.CoqStr(h), hk.CoqStr(p)) + ")"
+		}
+		r.Count(fmt.Sprintf("shp.ok=%v", err == nil))
+		r.Add(hk.Case{Coq: fmt.Sprintf("ShpCase %s %s", hk.CoqStr(in), obs),
+			Desc: map[string]interface{}{"kind": "splithostport", "input": in, "host": h, "port": p, "ok": err == nil}}, "s|"+in, strings.ContainsAny(in, "[]:"))
+		gotH, gotD := req.VerifGetHostname(in), req.VerifGetDomain(in)
+		r.Add(hk.Case{Coq: fmt.Sprintf("HostCase %s %s %s", hk.CoqStr(in), hk.CoqStr(gotH), hk.CoqStr(gotD)),
+			Desc: map[string]interface{}{"kind": "host-malformed", "input": in, "hostname": gotH, "domain": gotD}}, "hm|"+in, strings.ContainsAny(in, "[]:"))
 	}
 
 	// (a2) policies on (origin, target) pairs
@@ -266,6 +316,7 @@ func runC11(r *hk.Run) {
 			"p|"+coqPol+"|"+t.render()+"|"+strings.Join(viaStr, ","), t.render() != o.render())
 	}
 
+	c11OddV6 = false
 	// (b) end-to-end: single chains, client operation sequences, concurrent chains (chains.go)
 	c11EndToEnd(r, rng)
 }
